@@ -313,14 +313,30 @@ func c07Finish(c *mon.Ctx) {
 func c07RunConc(c *mon.Ctx, seed uint64) {
 	r := concRng("C07", seed)
 
-	var jobs []func() string
+	var (
+		jobs       []func() string
+		prevShared *secp256k1.Scalar
+		prevEnc    []byte
+	)
 
 	for i := 0; i < concJobs; i++ {
 		v := gen.Draw256(r, oracle.N).X
 		in := oracle.Bytes32(v)
 		accept := v.Cmp(oracle.N) < 0
 		dec := i % 3
+		shared := mon.Scal(oracle.Mod(v, oracle.N))
+		sharedEnc := oracle.Bytes32(oracle.Mod(v, oracle.N))
+
+		if i%2 == 1 {
+			shared, sharedEnc = prevShared, prevEnc // the same object another job is encoding at the same time
+		}
+
+		prevShared, prevEnc = shared, sharedEnc
 		jobs = append(jobs, func() string {
+			if !bytes.Equal(shared.Encode(), sharedEnc) || shared.Hex() != mon.H(sharedEnc) {
+				return "Encode/Hex of a scalar that another goroutine is also encoding"
+			}
+
 			s := mon.Scal(big.NewInt(77))
 
 			var err error
